@@ -34,6 +34,8 @@ type Hooks struct {
 	// InjectS2C, if set, returns raw transport payloads that the proxy delivers to the client just
 	// before it handles server message i (e.g. the 4-byte transport error -404).
 	InjectS2C func(i int) [][]byte
+	// InjectGap is slept before each injected payload (the first one included).
+	InjectGap time.Duration
 }
 
 // Link is one client<->server link through the proxy.
@@ -123,6 +125,13 @@ func NewLink(h Hooks) *Link {
 				for _, extra := range h.InjectS2C(i) {
 					var eb bin.Buffer
 					eb.ResetTo(append([]byte(nil), extra...))
+					if h.InjectGap > 0 {
+						select {
+						case <-time.After(h.InjectGap):
+						case <-ctx.Done():
+							return
+						}
+					}
 					l.log(Event{Dir: "inject-s2c", I: i, At: time.Now()})
 					if err := l.pc.Send(ctx, &eb); err != nil {
 						return
